@@ -596,7 +596,11 @@ impl Prop for C02 {
             }
             let mut big = top.clone();
             big[2] = u64::MAX;
-            crafted.push(("element-u64-max".into(), enc(&big, &oaddrs), (u64::MAX % P) != top[2] % P));
+            // (if the element happens to be 2^32 - 2 = u64::MAX mod p this is the non-canonical alias of
+            // the same statement, which a decoder may refuse: covered by the case above, not judged here)
+            if (u64::MAX % P) != top[2] % P {
+                crafted.push(("element-u64-max".into(), enc(&big, &oaddrs), true));
+            }
             for (name, bytes, changed) in crafted {
                 if name == "non-canonical-alias" {
                     // the same statement written non-canonically: a decoder may refuse the encoding or
